@@ -21,6 +21,9 @@ type TableSpec struct {
 	Name string `json:"name"`
 	Cols []Col  `json:"cols"`
 	Wide int    `json:"wide"` // typical varchar payload length
+	// index kind per column: "" = skip list (what SQL DDL creates), "btree", "uniq"; when set the
+	// table is created through the catalog API instead of CREATE TABLE
+	IdxKinds []string `json:"idx_kinds,omitempty"`
 }
 
 type CrashCfg struct {
